@@ -11,10 +11,16 @@ From MS Require Import L2 Rpc Smb Proto Spec.View Spec.TcpRef Spec.AppView Spec.
      Proofs.C07 Proofs.C12Own Proofs.C12Frame Proofs.C12Id Proofs.C12Refute Proofs.C12Chain Instance.
 
 (* A. every frame: layers 2-4, every datagram (all clauses), every TCP data segment (the
-   clauses that do not depend on where a message starts) *)
+   clauses that do not depend on where a message starts) of a flow that has no bytes pending
+   in the connection table (it is identified, or its first data segment is still to come:
+   [flow_not_pending]).  The handler of a flow is given the segment that completes a
+   signature joined to the bytes the flow sent before; for that segment the clauses hold of
+   the joined bytes (Proofs/C12Frame.v: proto_repl_tcp_C12_joined), not of the segment. *)
 Theorem C12x_frame :
   forall E cfg clk tb f tb' r evs,
     env_ok E = true -> cfg_ok cfg = true -> bytes_ok f = true -> (length f <= 4096)%nat ->
+    (forall v tc, view_tcp cfg f = Some v ->
+       tbl_find (flow_cookie cfg (flow_of v)) tb = Some tc -> t_pending tc = []) ->
     reply E cfg clk tb f = Ok (tb', r, evs) -> ok_C12x cfg f r = true.
 Proof. exact C12Frame.C12x_frame. Qed.
 
